@@ -156,6 +156,17 @@ pub(super) mod udp {
         }
     }
 
+    #[cfg(feature = "verif")]
+    impl<const N: usize> DatagramPacketCodec<'_, N> {
+        pub fn verif_set_packet_id(&mut self, packet_id: u64) {
+            self.session.packet_id = packet_id;
+        }
+
+        pub fn verif_session(&self) -> &Session<N> {
+            &self.session
+        }
+    }
+
     impl<const N: usize> Encoder<DatagramPacket> for DatagramPacketCodec<'_, N> {
         type Error = anyhow::Error;
 
